@@ -54,17 +54,17 @@ CHECKS = {
          "DESIGN.md §4 C14"),
  "C15": ("model_checking",
          "complete enumeration of a structured finite domain of timedeltas and aware datetimes (boundary seconds x boundary microseconds x sign x UTC offsets, plus every microsecond of dense windows), each compared with google.protobuf and an integer model",
-         "Every value is stored in optional and plain Timestamp/Duration fields, encoded, decoded by the reference ((seconds, nanos) must equal FromTimedelta/FromDatetime and be normalised), decoded back (identical value / same instant), mapped to JSON (must match the spec's lexical form and be read by the reference parser as the same value) and back from the reference's JSON; RFC 3339 input with numeric offsets (singular, repeated, map value) must be read as the instant the reference reads.",
+         "Every value is stored in optional and plain Timestamp/Duration fields, encoded, decoded by the reference ((seconds, nanos) must equal FromTimedelta/FromDatetime and be normalised), decoded back (identical value / same instant), mapped to JSON (must match the spec's lexical form and be read by the reference parser as the same value) and back from the reference's JSON; RFC 3339 input with numeric offsets (singular, repeated, map value) must be read as the instant the reference reads; every structured instant and the one half a year away also go through ONE shared tzinfo object whose offset depends on the date.",
          "values outside the enumerated domain (about 3e17 microsecond values) are argued structurally: integer arithmetic without further branch points",
          "DESIGN.md §4 C15"),
  "C19": ("model_checking",
          "exhaustive enumeration of all legal proto identifiers up to length 6 (7) over {a,b,A,B,0,1,_} plus keywords, builtins and a corpus, each pushed through the naming functions and a real one-field message class",
-         "For every identifier the four pythonize_* functions must return valid non-keyword identifiers and be idempotent, and a real message class with the field named as the plugin would name it must map its camelCase key, its snake_case key and the original proto name back to the field through both forms of from_dict with the value intact; all pairs of identifiers (length <=4 / 5) that are equal up to case and underscores are also bound as two fields of ONE message and every key must reach its own field.",
+         "For every identifier the four pythonize_* functions must return valid non-keyword identifiers and be idempotent, and a real message class with the field named as the plugin would name it must map its camelCase key, its snake_case key and the original proto name back to the field through both forms of from_dict with the value intact; all pairs of identifiers (length <=4 / 5) that are equal up to case and underscores are also bound as two fields of ONE message and every key must reach its own field (where derived keys of the two fields coincide, each python field name must still reach its own field).",
          "alphabet of 7 characters; protoc's json_name is recorded, not required (not in the property's key list)",
          "DESIGN.md §4 C19"),
  "C20": ("model_checking",
-         "exhaustive enumeration of all enum definitions with 1..3 members over 6 numbers (aliases included) and of all (field position, number) pairs, against a dict model",
-         "All 258 definitions are created with the real metaclass: lookup by number/name/attribute returns the one canonical member with the declared name and number; copy/deepcopy identity; pickle; openness (try_value) and closedness (call) for undefined numbers; every mutation attempt on class and members (member names, new names, internal tables, dunder names) raises and leaves behaviour unchanged. Every defined/undefined number in singular, optional, oneof, repeated and map-value position survives binary and JSON round trips in both casings.",
+         "exhaustive enumeration of all enum definitions with 1..3 members over 6 numbers (aliases included) and 3 member-name shapes and of all (field position, number) pairs, against a dict model",
+         "All 258 number patterns x 3 member-name shapes (A/B/C, underscore-led names, names carrying the class name as prefix next to the bare name) are created with the real metaclass: lookup by number/name/attribute returns the one canonical member with the declared name and number; copy/deepcopy identity; pickle; openness (try_value) and closedness (call) for undefined numbers; every mutation attempt on class and members (member names, new names, internal tables, dunder names) raises and leaves behaviour unchanged. Every defined/undefined number in singular, optional, oneof, repeated and map-value position survives binary and JSON round trips in both casings.",
          "definitions limited to 3 members over 6 numbers; plugin-generated enums are covered by C03",
          "DESIGN.md §4 C20"),
  "C04": ("model_checking",
@@ -88,13 +88,13 @@ CHECKS = {
          "schedules a real FIFO asyncio loop cannot produce are excluded by construction; OS threads are out of scope",
          "DESIGN.md §4 C12"),
  "C03": ("translation_validation",
-         "exhaustive enumeration of schemas from a grammar (every field kind x cardinality and all pairs; every structure atom alone and all pairs of atoms; 4 package depths) plus the tests/inputs corpus, each compiled by protoc + the plugin from the working tree, imported, and compared field by field with the FileDescriptorSet protoc emits (read with google.protobuf's descriptor_pb2)",
+         "exhaustive enumeration of schemas from a grammar (every field kind x cardinality and all pairs; every structure atom alone and all pairs of atoms; 4 package depths) plus the tests/inputs corpus, each compiled by protoc + the plugin from the working tree (also with only ONE file of a multi-file program named on the protoc command line), imported, and compared field by field with the FileDescriptorSet protoc emits (read with google.protobuf's descriptor_pb2)",
          "Per program: plugin exit status, importability, every generated message class constructed / encoded / decoded / dict-converted, one class per message/enum (nested included), one field per schema field with equal number, proto type, cardinality from the resolved type hints, map key/value types, oneof group, optional flag, wrapper/Timestamp/Duration mapping, resolved class identity of references, enum numbers; generated classes are additionally compared with classes built through the public field API (same metadata, same bytes), which transfers the small-scope results to generated code. The bundled descriptor / well-known-type / plugin classes are compared with descriptor.proto, plugin.proto and the WKT descriptors on every shared field.",
          "proto3 only; ruff replaced by an identity shim; class names are located with the implementation's naming function",
          "DESIGN.md §4 C03"),
  "C13": ("exploration",
          "exhaustive enumeration of package topologies: every ordered pair of the 15 package paths of depth 0..3 over {a,b} (each compiled alone), 7 packages whose names are textual prefixes of a neighbour or live under google.* against 5 partners, all packages referencing each other at once, and well-known types from every depth, compiled with the real plugin, imported, and checked by class identity",
-         "For every program the resolved type hint of each referring field (singular, repeated, map value, oneof member) and each rpc handler's request/reply type must BE the class generated for the target (message, nested message, enum, nested enum), a message built through the references must round-trip through the wire and JSON, referrers whose only references are rpc input/output types must work through __mapping__ and real calls, and well-known types must resolve to the bundled classes.",
+         "For every program the resolved type hint of each referring field (singular, repeated, map value, oneof member) and each rpc handler's request/reply type must BE the class generated for the target (message, nested message, enum, nested enum) - also when the referrer has plain fields named like the module aliases of the target -, a message built through the references must round-trip through the wire and JSON, referrers whose only references are rpc input/output types must work through __mapping__ and real calls, and well-known types must resolve to the bundled classes.",
          "package path alphabet {a,b}; the schedule/import order is the natural one",
          "DESIGN.md §4 C13"),
  "C18": ("translation_validation",
